@@ -662,6 +662,12 @@ func (dte *DtypeEnclosure) GobDecode(data []byte) error {
 }
 
 func (dte *DtypeEnclosure) SetRegexp(exp *regexp.Regexp) {
+	if exp == nil {
+		// a nil *regexp.Regexp stored in the interface-typed field would compare as non-nil and be
+		// dereferenced below (callers pass nil when their pattern did not compile)
+		dte.RexpCompiled = nil
+		return
+	}
 	dte.RexpCompiled = exp
 
 	if dte.RexpCompiled != nil {
